@@ -1,4 +1,32 @@
-import SfxModel.ArithSpec
+import SfxProofs.Wrapping
+/-
+  C18 — Wrapping<F> computes exactly the modulo-2^n result and never panics on overflow.
+  `Layout.wstep` is the model of one `Wrapping<F>` operation (the forwarder of `wrapping.rs`), `Layout.wexact` its exact
+  mathematical result, `Layout.wstepSpec` = "exact result reduced modulo 2^n; panic only for a zero divisor; no debug-only panic";
+  `Layout.wrun` runs a program of any length and records the value after every step under a build profile.
+-/
 namespace Sfx.C18
-theorem placeholder : True := trivial
+open Sfx.WrapPf
+
+def C18_statement : Prop :=
+  ∀ L : Layout, L.valid → ∀ x : Int, inRange L x → ∀ prog : List WStep, (∀ st ∈ prog, st.wf L) →
+    (∀ p : Profile, Layout.wrun L.wstep p x prog = Layout.wrun L.wstepSpec p x prog) ∧
+    Layout.wrun L.wstep .chk x prog = Layout.wrun L.wstep .rel x prog
+
+theorem holds : C18_statement := fun L hv x hx prog hw =>
+  ⟨fun p => wrun_spec L hv p x hx prog hw, wrun_profile_independent L hv x hx prog hw⟩
+
+/-- single operations: model = documented result, result stays a bit pattern of the layout, no debug-only flag -/
+theorem step (L : Layout) (hv : L.valid) (x : Int) (hx : inRange L x) (st : WStep) (hw : st.wf L) :
+    L.wstep x st = L.wstepSpec x st ∧ (∀ v d, L.wstep x st = .ok v d → inRange L v ∧ d = false) :=
+  ⟨wstep_spec L hv x hx st hw, fun v d h => ⟨wstep_inRange L hv x hx st hw v d h, wstep_no_dbg L hv x hx st hw v d h⟩⟩
+
+/-- non-vacuity: a well-formed program with an overflowing product, a shift by more than the width and a zero divisor -/
+example : (⟨true, 8, 4⟩ : Layout).valid ∧ inRange ⟨true, 8, 4⟩ (-128) ∧
+    ∀ st ∈ [WStep.mul 127, WStep.shl 300, WStep.abs, WStep.div 0], st.wf ⟨true, 8, 4⟩ := by
+  refine ⟨by decide, by decide, ?_⟩
+  intro st hst
+  simp only [List.mem_cons, List.mem_nil_iff, or_false] at hst
+  rcases hst with h | h | h | h <;> subst h <;> simp [WStep.wf] <;> decide
+
 end Sfx.C18
